@@ -276,3 +276,37 @@ class Rng(random.Random):
     def nprng(self):
         import numpy
         return numpy.random.default_rng(self.getrandbits(63))
+
+
+# ------------------------------------------------------------------ concurrency ---
+def threads_equal(calls, workers=8, repeats=3):
+    """calls: list of zero-argument callables returning arrays / tuples of arrays.  Runs them one after the other (reference),
+    then all of them at once from a thread pool (a barrier lines the threads up), `repeats` times; returns the number of
+    concurrent results that differ bitwise from the sequential reference.  Library code that keeps module-level scratch
+    buffers or other shared state shows up here; pure functions of their arguments give 0."""
+    import threading, numpy
+    from concurrent.futures import ThreadPoolExecutor
+
+    def norm(r):
+        if isinstance(r, (tuple, list)):
+            return tuple(norm(x) for x in r)
+        a = numpy.asarray(r)
+        return (a.shape, a.dtype.str, a.tobytes())
+    ref = [norm(c()) for c in calls]
+    bad = 0
+    n = len(calls)
+    for _ in range(repeats):
+        barrier = threading.Barrier(min(n, workers))
+        def run(i):
+            try:
+                barrier.wait(timeout=5)
+            except Exception:
+                pass
+            try:
+                return norm(calls[i]())
+            except Exception as ex:
+                return ("raised", type(ex).__name__)
+        with ThreadPoolExecutor(max_workers=min(n, workers)) as ex:
+            got = list(ex.map(run, range(n)))
+        bad += sum(1 for a, b in zip(got, ref) if a != b)
+    return bad
